@@ -183,9 +183,11 @@ def apply_reference(repo):
     for q in list(repo.inlined_helpers):
         if q in repo.funcs:
             _merge_renamed_locals(repo.funcs[q])
+            _drop_self_assignments(repo.funcs[q].node)
             _thread_none_tests(repo.funcs[q].node)
     repo.struct_objects = expand_struct_objects(repo, ref)
     repo.unrolled_tables = unroll_constant_tables(repo, ref)
+    repo.dict_get_guards = dict_get_guards(repo, ref)
     repo.dict_gets = dict_get_to_membership(repo, ref)
     renamed = {}
     for q, fi in repo.funcs.items():
@@ -239,6 +241,11 @@ def apply_reference(repo):
     except RecursionError:
         inl = {}
     repo.inlined_aliases = inl
+    # lookups through an alias (ctxt = self.ctxt; ctxt.pool.get(k)) are recognisable only now
+    for q_, v_ in dict_get_guards(repo, ref).items():
+        repo.dict_get_guards.setdefault(q_, []).extend(v_)
+    for q_, v_ in dict_get_to_membership(repo, ref).items():
+        repo.dict_gets.setdefault(q_, []).extend(v_)
     repo.propagated_constants = propagate_new_constants(repo, ref) if not os.environ.get("VERIF_NO_FOLD_TEMPS") else {}
     repo.folded_temporaries = inline_new_temporaries(repo, ref) if not os.environ.get("VERIF_NO_FOLD_TEMPS") else {}
     repo.respelled = respell(repo, ref)
@@ -371,8 +378,23 @@ def inline_new_aliases(repo, ref):
             if ch is not None and len(ch) < 2 and ch[0] in ("self", "cls"):
                 continue
             stores = [n for n in walk_own(fi.node) if isinstance(n, ast.Name) and n.id == name and isinstance(n.ctx, (ast.Store, ast.Del))]
+            twins = []
             if len(stores) != 1:
-                continue
+                # the same alias bound again to the same chain in the same block (two inlined helpers that each had it):
+                # every read still sees that chain, under the same stability conditions, taken from the first binding on
+                blk0, idx0 = _block_of(st)
+                ok_tw = blk0 is not None and ch is not None
+                for sn in stores:
+                    ps = getattr(sn, "_parent", None)
+                    if ps is st:
+                        continue
+                    if not (isinstance(ps, ast.Assign) and len(ps.targets) == 1 and ps.targets[0] is sn and ast.unparse(ps.value) == ast.unparse(st.value)
+                            and blk0 is not None and any(ps is x for x in blk0) and blk0.index(ps) > idx0):
+                        ok_tw = False
+                        break
+                    twins.append(ps)
+                if not ok_tw:
+                    continue
             loads = [n for n in walk_own(fi.node) if isinstance(n, ast.Name) and n.id == name and isinstance(n.ctx, ast.Load)]
             if not loads:
                 continue
@@ -425,6 +447,33 @@ def inline_new_aliases(repo, ref):
                 # calls executed between the binding and the last read (over-approximated: every call in the following statements
                 # of the block up to the last statement that reads the alias) must not reach a writer of a chain attribute
                 calls = [c for s in blk[idx + 1:last + 1] for c in ast.walk(s) if isinstance(c, ast.Call)]
+                if calls:
+                    # only calls that can execute between the binding and a read matter: reachable from the binding, and a read
+                    # reachable from them without passing the binding again (a call in a branch after which the alias is dead,
+                    # or re-bound first, cannot change what any read sees)
+                    try:
+                        _clear_analysis_caches()
+                        from .cfg import cfg_of as _cfg_of
+                        g = _cfg_of(fi)
+                        bn = g.node_of(st)
+                        load_nodes = {g.node_of(x).id for x in loads if g.node_of(x) is not None}
+                        if bn is not None and len(load_nodes) == len({id(x) for x in loads}) or bn is not None:
+                            from_b = g.reachable(bn.id)
+                            keep_calls = []
+                            for c in calls:
+                                cn = g.node_of(c)
+                                if cn is None:
+                                    keep_calls.append(c)
+                                    continue
+                                if cn.id not in from_b:
+                                    continue
+                                after = g.reachable(cn.id, avoid=(bn.id,))
+                                # a read in the call's own cfg node may be evaluated after the call
+                                if (after - {cn.id}) & load_nodes or cn.id in load_nodes:
+                                    keep_calls.append(c)
+                            calls = keep_calls
+                    except Exception:
+                        pass
                 bad_fns = set()
                 for a in attrs:
                     bad_fns |= writers.get(a, set())
@@ -445,6 +494,26 @@ def inline_new_aliases(repo, ref):
                         elif not _stores_only_on_self(w, ch[1]):
                             keep.add(wq)
                     bad_fns = keep
+                if len(ch) > 2 or (len(ch) == 2 and root != "self"):
+                    # setattr with a computed name inside a method that only targets its own receiver (Serializable.__init__ /
+                    # deserialize) writes objects of that class: harmless when no class that owns an attribute of the chain
+                    # (stores it on its self) is related to it
+                    star = writers.get("*", set())
+                    owners = set()
+                    for a_ in attrs:
+                        for wq in writers.get(a_, ()):
+                            w = repo.funcs.get(wq)
+                            if w is not None and w.cls is not None:
+                                owners.add(w.cls)
+                    drop = set()
+                    for wq in bad_fns & star:
+                        w = repo.funcs.get(wq)
+                        if w is None or w.cls is None or any(wq in writers.get(a_, ()) for a_ in attrs):
+                            continue
+                        fam = {w.cls} | set(_mro(w.cls)) | {c for c in repo.classes.values() if w.cls in _mro(c)}
+                        if owners and not (fam & owners) and _setattr_only_on_own(w):
+                            drop.add(wq)
+                    bad_fns = bad_fns - drop
                 if len(ch) == 1:
                     bad_fns = set()         # a local name cannot be rebound by anything that is called
                 if calls and bad_fns:
@@ -482,6 +551,10 @@ def inline_new_aliases(repo, ref):
             if len(blk) > 1 and blk[idx] is st:
                 del blk[idx]
                 _invalidate(fi.node)
+            for tw in twins:
+                if len(blk) > 1 and any(tw is x for x in blk):
+                    blk.remove(tw)
+                    _invalidate(fi.node)
             if any(isinstance(x, ast.IfExp) for x in ast.walk(st.value)):
                 _simplify_bool_contexts(fi.node)
     return inlined
@@ -957,7 +1030,7 @@ def _never_none_mapping(repo, chain):
     module-level functions and classes, and every subscript store X[k] = v has such a v.  Returns the set of functions that
     mutate the mapping (for the stability test), or None when the values cannot be vouched for."""
     name = chain[-1]
-    if not (len(chain) == 1 or (len(chain) == 2 and chain[0] == "self")):
+    if not (len(chain) == 1 or chain[0] == "self"):
         return None
     defined = set()
     for m in repo.modules.values():
@@ -965,13 +1038,40 @@ def _never_none_mapping(repo, chain):
             if isinstance(st, (ast.FunctionDef, ast.ClassDef)):
                 defined.add(st.name)
 
-    def value_ok(v):
+    classes = {c.name for m in repo.modules.values() for c in m.tree.body if isinstance(c, ast.ClassDef)}
+
+    def value_ok(v, stmt=None, fi_=None):
         if isinstance(v, ast.Constant):
             return v.value is not None
         if isinstance(v, (ast.List, ast.Dict, ast.Set, ast.Tuple, ast.Lambda, ast.ListComp, ast.DictComp, ast.SetComp, ast.JoinedStr)):
             return True
+        if isinstance(v, ast.Call) and isinstance(v.func, ast.Name) and v.func.id in classes:
+            return True         # a constructor call
         if isinstance(v, ast.Name):
-            return v.id in defined
+            if v.id in defined:
+                return True
+            # the storing statement itself dereferences the name (d[x.addr] = x): None would have raised before the store
+            if stmt is not None and any(isinstance(x, ast.Attribute) and isinstance(x.value, ast.Name) and x.value.id == v.id for x in ast.walk(stmt)):
+                return True
+            # the nearest preceding statement of the same block that binds the name binds it to such a value
+            if stmt is not None:
+                blk_, idx_ = _block_of(stmt)
+                if blk_ is not None:
+                    for k_ in range(idx_ - 1, -1, -1):
+                        p_ = blk_[k_]
+                        if isinstance(p_, ast.Assign) and len(p_.targets) == 1 and isinstance(p_.targets[0], ast.Name) and p_.targets[0].id == v.id:
+                            if value_ok(p_.value):
+                                return True
+                            break
+                        if any(isinstance(x, ast.Name) and x.id == v.id and isinstance(x.ctx, (ast.Store, ast.Del)) for x in ast.walk(p_)):
+                            break
+            # every binding of the local in the function is a constructor call
+            if fi_ is not None:
+                binds = [n for n in walk_own(fi_.node) if isinstance(n, ast.Name) and n.id == v.id and isinstance(n.ctx, ast.Store)]
+                if binds and v.id not in fi_.params and all(isinstance(getattr(b_, "_parent", None), ast.Assign) and len(b_._parent.targets) == 1 and b_._parent.targets[0] is b_
+                                                              and value_ok(b_._parent.value) for b_ in binds):
+                    return True
+            return False
         if isinstance(v, ast.Call) and isinstance(v.func, ast.Name) and v.func.id in ("list", "dict", "set", "tuple", "int", "str", "bytes", "re.compile"):
             return True
         return False
@@ -984,7 +1084,7 @@ def _never_none_mapping(repo, chain):
             if isinstance(n, ast.Assign):
                 for t in n.targets:
                     c = _chain(t)
-                    if c is not None and c[-1] == name and len(c) == len(chain):
+                    if c is not None and c[-1] == name and (len(c) > 1) == (len(chain) > 1):
                         bound += 1
                         v = n.value
                         if isinstance(v, ast.Dict):
@@ -997,7 +1097,7 @@ def _never_none_mapping(repo, chain):
                     if isinstance(t, ast.Subscript):
                         c2 = _chain(t.value)
                         if c2 is not None and c2[-1] == name:
-                            if not value_ok(n.value):
+                            if not value_ok(n.value, n, fi):
                                 return None
                             if q is not None:
                                 mutators.add(q)
@@ -1021,6 +1121,97 @@ def _never_none_mapping(repo, chain):
     if bound == 0:
         return None
     return mutators
+
+
+def dict_get_guards(repo, ref):
+    """w = D.get(k)                       if k in D:                  w = D.get(k)                  if k not in D:
+       if w is not None:        ->            w = D[k]                if w is None:        ->           A        (A leaves)
+           B                                  B                           A   (A leaves)            w = D[k]
+       else:                              else:
+           C                                  C
+    for a mapping D whose values are never None (see _never_none_mapping), a key that is a name or constant, D an attribute chain
+    (reading it twice has no effect), C not reading the w bound here.  The lookup and its test are adjacent, so nothing can
+    change the mapping between them; w is bound once, at the point where the original bound it to the same object."""
+    done = {}
+    for q, fi in repo.funcs.items():
+        if fi.is_lambda or q not in ref:
+            continue
+        changed = True
+        while changed:
+            changed = False
+            for owner, field, blk in _blocks(fi.node):
+                for i in range(len(blk) - 1):
+                    st, nx = blk[i], blk[i + 1]
+                    if not (isinstance(st, ast.Assign) and len(st.targets) == 1 and isinstance(st.targets[0], ast.Name) and isinstance(st.value, ast.Call)
+                            and isinstance(st.value.func, ast.Attribute) and st.value.func.attr == "get" and not st.value.keywords and 1 <= len(st.value.args) <= 2):
+                        continue
+                    if len(st.value.args) == 2 and not (isinstance(st.value.args[1], ast.Constant) and st.value.args[1].value is None):
+                        continue
+                    w = st.targets[0].id
+                    key = st.value.args[0]
+                    dch = _chain(st.value.func.value)
+                    if dch is None or not isinstance(key, (ast.Name, ast.Constant)) or (isinstance(key, ast.Name) and key.id == w):
+                        continue
+                    if not (isinstance(nx, ast.If) and isinstance(nx.test, ast.Compare) and len(nx.test.ops) == 1 and isinstance(nx.test.ops[0], (ast.Is, ast.IsNot))
+                            and isinstance(nx.test.left, ast.Name) and nx.test.left.id == w and isinstance(nx.test.comparators[0], ast.Constant) and nx.test.comparators[0].value is None):
+                        continue
+                    if _never_none_mapping(repo, dch) is None:
+                        continue
+                    present_first = isinstance(nx.test.ops[0], ast.IsNot)
+                    dtxt, ktxt = ast.unparse(st.value.func.value), ast.unparse(key)
+                    absent = nx.orelse if present_first else nx.body
+                    # the absent suite must not read the None bound here (it may rebind w first: then its reads see its own binding)
+                    def reads_before_store(stmts):
+                        for s_ in stmts:
+                            for x in ast.walk(s_):
+                                if isinstance(x, ast.Name) and x.id == w and isinstance(x.ctx, ast.Load):
+                                    # a store of w earlier in document order within the suite?
+                                    if not any(isinstance(y, ast.Name) and y.id == w and isinstance(y.ctx, ast.Store) and _pos(y) < _pos(x) for s2 in stmts for y in ast.walk(s2)):
+                                        return True
+                        return False
+                    if reads_before_store(absent):
+                        continue
+                    bind = "%s = %s[%s]" % (w, dtxt, ktxt)
+                    if present_first:
+                        # reads of w after the if statement (it has no else, or the else falls through) would see None on the absent path
+                        rest = blk[i + 2:]
+                        if reads_before_store(rest) and not (nx.orelse and _always_leaves(nx.orelse)):
+                            continue
+                        new_if = ast.parse("if %s in %s:\n    %s\n    pass" % (ktxt, dtxt, bind)).body[0]
+                        new_if.body = [new_if.body[0]] + nx.body
+                        new_if.orelse = nx.orelse
+                        fresh = [new_if]
+                    else:
+                        if not _always_leaves(nx.body) and not nx.orelse:
+                            continue
+                        new_if = ast.parse("if %s not in %s:\n    pass" % (ktxt, dtxt)).body[0]
+                        new_if.body = nx.body
+                        b_ = ast.parse(bind).body[0]
+                        if nx.orelse:
+                            new_if.orelse = [b_] + nx.orelse
+                            fresh = [new_if]
+                        else:
+                            new_if.orelse = []
+                            fresh = [new_if, b_]
+                    for s_ in fresh:
+                        ast.fix_missing_locations(s_)
+                    fresh = ast.parse("\n".join(ast.unparse(s_) for s_ in fresh)).body
+                    for s_ in fresh:
+                        for y in ast.walk(s_):
+                            ast.copy_location(y, st)
+                            for ch_ in ast.iter_child_nodes(y):
+                                ch_._parent = y
+                        s_._parent = owner
+                    blk[i:i + 2] = fresh
+                    _invalidate(owner)
+                    done.setdefault(q, []).append(w)
+                    changed = True
+                    break
+                if changed:
+                    break
+    if done:
+        _clear_analysis_caches()
+    return done
 
 
 def dict_get_to_membership(repo, ref):
@@ -1149,8 +1340,6 @@ def unroll_constant_tables(repo, ref):
     getattr(x, "name") with a literal name is x.name.  A table-driven dispatch becomes the if-chain it abbreviates."""
     tables = _table_literals(repo)
     done = {}
-    if not tables:
-        return done
     for q, fi in repo.funcs.items():
         if fi.is_lambda or q not in ref:
             continue
@@ -1171,6 +1360,14 @@ def unroll_constant_tables(repo, ref):
                 elif isinstance(it, ast.Name):
                     key = (fi.module.name, None, it.id)
                 rows = tables.get(key)
+                if rows is None and isinstance(it, (ast.Tuple, ast.List)) and it.elts and all(isinstance(e_, (ast.Name, ast.Constant)) or _chain(e_) is not None for e_ in it.elts):
+                    # a display of names / constants written in place: for v in (a, b, c) - the names must not be rebound in the body
+                    names_in = {x.id for e_ in it.elts for x in ast.walk(e_) if isinstance(x, ast.Name)}
+                    if not any(isinstance(x, ast.Name) and x.id in names_in and isinstance(x.ctx, (ast.Store, ast.Del)) for s_ in st.body for x in ast.walk(s_)) \
+                            and not any(isinstance(x, ast.Call) for e_ in it.elts for x in ast.walk(e_)) and len(it.elts) <= 8 \
+                            and all(isinstance(e_, (ast.Name, ast.Constant)) for e_ in it.elts):
+                        rows = list(it.elts)
+                        key = (fi.module.name, None, "<display>")
                 if rows is None:
                     continue
                 tg = st.target
@@ -1846,6 +2043,17 @@ def _mro(ci):
             out.append(b)
             todo += list(b.bases)
     return out
+
+
+def _drop_self_assignments(fnode):
+    """x = x for a local name x (what `return x` of an inlined helper becomes once its renamed local is merged back)"""
+    for owner, field, blk in _blocks(fnode):
+        if len(blk) > 1:
+            keep = [s_ for s_ in blk if not (isinstance(s_, ast.Assign) and len(s_.targets) == 1 and isinstance(s_.targets[0], ast.Name)
+                                             and isinstance(s_.value, ast.Name) and s_.value.id == s_.targets[0].id)]
+            if keep and len(keep) != len(blk):
+                blk[:] = keep
+                _invalidate(owner)
 
 
 def _drop_noops(stmts):
